@@ -129,3 +129,9 @@ LEVEL_NOTE_PREFIX = ('PARTIAL: only the clauses that are logic are proved (order
                      'scheduling, timing) cannot be stated about a pure model and is ONLY EXERCISED by repeated '
                      'execution under perturbation (cli_repro) and valgrind (cli_memcheck): testing in support, '
                      'not proof. ')
+RULE = ('seeded generator per stream. diff streams (search_*, cont_sort_random, repro_edges, repro_sched): an evaluation is '
+        'one op line executed by both the C implementation and the Lean model. oracle streams: repro_walldist_orders - '
+        'one op line of the C harness; cli_repro - one scenario = the same command repeated 6 (serial) or 3 (MPI) times '
+        'under different perturbations (9 / 5 in the thorough tier) with all output files compared; cli_memcheck - one '
+        'valgrind run. non-trivial = the result is not a rejected/ok-only line (cli_repro: all repetitions exited 0 and '
+        'agreed); distinct = sha256 of (op, implementation result)')
